@@ -75,6 +75,35 @@ type Case struct {
 	G0  *model.Graph `json:"g0"`
 	G1  Sized        `json:"g1"`
 	Ops []Op         `json:"ops"`
+	// BigRow > 0: the first vertex and the first edge of G0 carry a text property of that
+	// many characters, so every row that shows them is larger than the line buffers a
+	// reader may start with (bufio's 64 KB).
+	BigRow int `json:"big_row,omitempty"`
+}
+
+// withBigRow returns g with the large property added (see Case.BigRow).
+func withBigRow(g *model.Graph, n int) *model.Graph {
+	if n <= 0 || g == nil {
+		return g
+	}
+	out := &model.Graph{}
+	for i, v := range g.V {
+		c := *v
+		if i == 0 {
+			c.Data = model.CopyMap(v.Data)
+			c.Data["s"] = strings.Repeat("x", n)
+		}
+		out.V = append(out.V, &c)
+	}
+	for i, e := range g.E {
+		c := *e
+		if i == 0 {
+			c.Data = model.CopyMap(e.Data)
+			c.Data["s"] = strings.Repeat("y", n)
+		}
+		out.E = append(out.E, &c)
+	}
+	return out
 }
 
 func (o Op) String() string {
@@ -1049,11 +1078,16 @@ func runCase(t pbt.TB, c Case) {
 	if c.G0 == nil {
 		c.G0 = &model.Graph{}
 	}
+	g0 := c.G0 // the case file keeps the graph without the large property
+	if c.BigRow > 0 {
+		g0 = withBigRow(c.G0, c.BigRow)
+		pbt.Class(t, "rows>64KB")
+	}
 	m := &machine{t: t, c: c, dir: pbt.ScratchDir("c11-jobs-")}
 	defer os.RemoveAll(m.dir)
 	m.dir = filepath.Join(m.dir, "jobs") // NewFSJobStorage creates it, as on a first server start
 	m.js = jobstorage.NewFSJobStorage(m.dir)
-	m.g[0] = loadGraph(t, gripx.FreshName()+"r", c.G0)
+	m.g[0] = loadGraph(t, gripx.FreshName()+"r", g0)
 	m.g[1] = loadSized(t, c.G1)
 	for _, op := range c.Ops {
 		if m.stop {
